@@ -599,6 +599,9 @@ pub struct HybridCompressor {
 }
 
 impl HybridCompressor {
+    /// Algorithm identifier of a frame that stores the payload as is (no algorithm shrank it)
+    const RAW: u8 = 0xFF;
+
     /// Create a new hybrid compressor that automatically selects the best algorithm
     ///
     /// The compressor will test multiple algorithms and choose the one with best compression
@@ -624,7 +627,7 @@ impl Compressor for HybridCompressor {
         }
 
         let mut best_result = data.to_vec();
-        let mut best_algorithm = 0u8;
+        let mut best_algorithm = Self::RAW;
 
         // Try each compressor and pick the best result
         for (i, compressor) in self.compressors.iter().enumerate() {
@@ -649,6 +652,10 @@ impl Compressor for HybridCompressor {
 
         let algorithm_id = data[0] as usize;
         let compressed_data = &data[1..];
+
+        if data[0] == Self::RAW {
+            return Ok(compressed_data.to_vec());
+        }
 
         if algorithm_id >= self.compressors.len() {
             return Err(ZiporaError::invalid_data(
